@@ -2288,13 +2288,14 @@ fn core_word_const(xs: &mut State) -> Xresult {
         let val = xs.pop_data()?;
         let name = Xstr::from(name.as_str());
         if let Some(pos) = xs.dict_pos(name.as_str()) {
-            match &mut xs.dict[pos].entry {
-                Entry::Constant(old) => *old = val,
+            match &xs.dict[pos].entry {
+                Entry::Constant(_) => (),
                 _ => return Err(Xerr::const_context())
             }
-        } else {
-            xs.dict_insert(name, Entry::Constant(val))?;
         }
+        // a new entry shadows the old constant, so that a rejected source
+        // can be rolled back by cutting the dictionary
+        xs.dict_insert(name, Entry::Constant(val))?;
         OK
     }
 }
